@@ -56,3 +56,11 @@ package transaction
 //@ loop 3 invariant tc == t.Cache.cache[table] && (table in t.Cache.cache)
 //@ loop 3 invariant forall u: string :: visited2(u) ==> RowOK(tc, tc.cache[u])
 
+// applyReferenceUpdates (C06): every row that garbage collection removes is
+// recorded as deleted by the transaction - whether or not an earlier operation
+// had already read it into the transaction cache - so the index check does not
+// count its committed index entries as live conflicts.
+//@ func (*Transaction).applyReferenceUpdates$1 group idx
+//@ trace mapupdate:t.DeletedRows
+//@ at update t.DeletedRows requires arg0 == uuid && old != nil && new == nil
+//@ ensures_ok old != nil && new == nil ==> calls("mapupdate:t.DeletedRows") == 1
